@@ -7,6 +7,7 @@ import (
 	"go/printer"
 	"go/token"
 	"go/types"
+	"sort"
 	"strings"
 
 	"golang.org/x/tools/go/packages"
@@ -400,6 +401,7 @@ func checkZipAgreement(c *Ctx, p *Prog, rule string) {
 	// decoder codes + canRecover copy
 	for _, d := range []string{"parser_zip", "parser_debugzip"} {
 		checkZipDecoder(c, p, rule, d)
+		checkZipInitOrder(c, p, "R12.6", d)
 	}
 	// encoder copies CanRecover and goto cells from the same sources as the plain writer
 	fn := p.Func(parserGenPkg, "GenCompActionTable")
@@ -450,7 +452,9 @@ func checkZipAgreement(c *Ctx, p *Prog, rule string) {
 	}
 }
 
-// checkZipDecoder interprets the generated init() functions that fill the tables.
+var zipLocals = map[string]string{"actionTab": "actionTab", "gotoTab": "gotoTab"}
+
+// checkZipDecoder interprets the generated functions that fill the tables.
 func checkZipDecoder(c *Ctx, p *Prog, rule, dir string) {
 	sp := p.SSAPkg(gmRoot + "/" + dir)
 	if sp == nil {
@@ -458,6 +462,32 @@ func checkZipDecoder(c *Ctx, p *Prog, rule, dir string) {
 		return
 	}
 	var actInit, gotoInit *ssa.Function
+	// the tables are either the results of decoder functions called by their own initialisers ...
+	if pi := sp.Func("init"); pi != nil {
+		for _, b := range pi.Blocks {
+			for _, in := range b.Instrs {
+				st, ok := in.(*ssa.Store)
+				if !ok {
+					continue
+				}
+				g, ok := st.Addr.(*ssa.Global)
+				if !ok {
+					continue
+				}
+				call, ok := st.Val.(*ssa.Call)
+				if !ok || call.Call.StaticCallee() == nil {
+					continue
+				}
+				switch g.Name() {
+				case "actionTab":
+					actInit = call.Call.StaticCallee()
+				case "gotoTab":
+					gotoInit = call.Call.StaticCallee()
+				}
+			}
+		}
+	}
+	// ... or filled by init functions
 	for _, fn := range pkgFunctions(p, sp) {
 		if !strings.HasPrefix(fn.Name(), "init#") {
 			continue
@@ -496,7 +526,7 @@ func checkZipDecoder(c *Ctx, p *Prog, rule, dir string) {
 		_ = reduceT
 		_ = acceptT
 		// outer body: canRecover copied
-		reg := &Region{Fn: actInit, Start: hs[0], Cuts: cutSet(hs...), PhiInputs: map[string]Val{"rangeindex": VSym{Name: "i"}}, Summaries: gobS,
+		reg := &Region{Fn: actInit, Start: hs[0], Cuts: cutSet(hs...), PhiInputs: map[string]Val{"rangeindex": VSym{Name: "i"}}, Summaries: gobS, ObserveLocals: zipLocals,
 			PreWorld: &MapWorld{IntFn: func(n string) (int64, bool) { return 1, strings.HasPrefix(n, "len(") }}}
 		out := InterpretSafe(reg, &MapWorld{Ints: map[string]int64{"i": 0}, IntFn: func(n string) (int64, bool) { return 3, strings.HasPrefix(n, "len(") }})
 		cr := ""
@@ -511,7 +541,7 @@ func checkZipDecoder(c *Ctx, p *Prog, rule, dir string) {
 			code int64
 			want string
 		}{{0, "parser.accept(true)"}, {1, "parser.reduce(AMOUNT)"}, {2, "parser.shift(AMOUNT)"}, {3, ""}} {
-			reg := &Region{Fn: actInit, Start: hs[1], Cuts: cutSet(hs...), PhiInputs: map[string]Val{"rangeindex": VSym{Name: "k"}}, Summaries: gobS,
+			reg := &Region{Fn: actInit, Start: hs[1], Cuts: cutSet(hs...), PhiInputs: map[string]Val{"rangeindex": VSym{Name: "k"}}, Summaries: gobS, ObserveLocals: zipLocals,
 				PreWorld: &MapWorld{IntFn: func(n string) (int64, bool) { return 1, strings.HasPrefix(n, "len(") }},
 				Lazy: func(o *Obj, path string, t types.Type) Val {
 					switch {
@@ -541,7 +571,7 @@ func checkZipDecoder(c *Ctx, p *Prog, rule, dir string) {
 		c.Undecided(rule, dir+": goto decoder", "expected two nested loops")
 		return
 	}
-	reg := &Region{Fn: gotoInit, Start: gh[1], Cuts: cutSet(gh...), PhiInputs: map[string]Val{"j": VSym{Name: "j"}}, Summaries: gobS}
+	reg := &Region{Fn: gotoInit, Start: gh[1], Cuts: cutSet(gh...), PhiInputs: map[string]Val{"j": VSym{Name: "j"}}, Summaries: gobS, ObserveLocals: zipLocals}
 	out := InterpretSafe(reg, &MapWorld{Ints: map[string]int64{"j": 0}})
 	ok := false
 	detail := ""
@@ -794,10 +824,112 @@ func runC12(c *Ctx) {
 	c.Assumptions = append(c.Assumptions, "encoding/gob and compress/gzip reproduce the encoded value (library fidelity) — NOT decided",
 		"fmt print functions write to stdout only")
 	c.Trusted = append(c.Trusted, "go/parser, go/printer (statement comparison)", "go/ssa", "checker/sx.go")
+	checkZipNames(c, p, "R12.7")
 	c.Explanation = "C12 decided structurally: (R12.1) the debug instantiation of lexer.go / parser.go equals the plain one up to inserted fmt.Printf/Println statements (optionally under a call-free condition) whose operands call only effect-free functions — no other statement, declaration or file changes; (R12.2) -zip: the gob payload types gocc encodes are identical to the types the generated init() decodes into; encoder arms map Accept/Reduce/Shift to codes 0/1/2 with Amount = the action's number and skip Error, the decoder maps 0/1/2 to accept(true)/reduce(Amount)/shift(Amount) in column Index, copies canRecover and every goto cell over exactly the table dimensions, and both writers read the same sources (set.Action of the same symbol list, NextSetIndex over NTList) — so the decoded tables equal the literal ones; (R12.3) the flag getters are confined: Zip() only selects the writer, DebugLexer/DebugParser only become the template's Debug field, NoLexer only skips the lexer generator, Verbose only adds diagnostics. NOT decided: gob/gzip round-trip fidelity."
 }
 
 func isConstInt(v ssa.Value, n int64) bool {
 	c, ok := v.(*ssa.Const)
 	return ok && c.Value != nil && c.Int64() == n
+}
+
+// R12.6: with -zip the tables must be complete as soon as anything can use them. Package-level variables are
+// initialised before any init() function runs, in dependency order; the file header of the grammar is copied
+// into package parser and may declare a variable whose initialiser parses something. The plain tables are
+// composite literals (complete by dependency order); the compressed ones must therefore be the values of their
+// own initialisers, not filled in by an init() function.
+func checkZipInitOrder(c *Ctx, p *Prog, rule, dir string) {
+	sp := p.SSAPkg(gmRoot + "/" + dir)
+	if sp == nil {
+		c.Undecided(rule, dir, "model package missing")
+		return
+	}
+	for _, tab := range []string{"actionTab", "gotoTab"} {
+		var writers []string
+		for _, fn := range pkgFunctions(p, sp) {
+			if !strings.HasPrefix(fn.Name(), "init#") {
+				continue
+			}
+			for _, b := range fn.Blocks {
+				for _, in := range b.Instrs {
+					var addr ssa.Value
+					switch x := in.(type) {
+					case *ssa.Store:
+						addr = x.Addr
+					default:
+						continue
+					}
+					for i := 0; i < 6 && addr != nil; i++ {
+						switch a := addr.(type) {
+						case *ssa.Global:
+							if a.Name() == tab {
+								writers = append(writers, fn.Name())
+							}
+							addr = nil
+						case *ssa.IndexAddr:
+							addr = a.X
+						case *ssa.FieldAddr:
+							addr = a.X
+						default:
+							addr = nil
+						}
+					}
+				}
+			}
+		}
+		c.Ob(rule, dir+": "+tab+" is complete before any init function runs", len(writers) == 0, fmt.Sprintf("written by %v; required: the table is the value of its own initialiser — a package-level variable declared in the grammar's file header (copied into package parser) is initialised before init() runs and would parse with empty tables, unlike the plain variant", uniqStrings(writers)))
+	}
+}
+
+func uniqStrings(in []string) []string {
+	seen := map[string]bool{}
+	var out []string
+	for _, s := range in {
+		if !seen[s] {
+			seen[s] = true
+			out = append(out, s)
+		}
+	}
+	return out
+}
+
+// R12.7: the -zip files bring no names into package parser that the plain files do not bring. The grammar's
+// file header is copied into the package; a package-level identifier it declares collides with an imported
+// package of the same name in any file of the package.
+func checkZipNames(c *Ctx, p *Prog, rule string) {
+	names := func(dir string) map[string]string {
+		out := map[string]string{}
+		pk := p.Pkg(gmRoot + "/" + dir)
+		if pk == nil {
+			return nil
+		}
+		for _, f := range pk.Syntax {
+			for _, im := range f.Imports {
+				path := strings.Trim(im.Path.Value, `"`)
+				n := path[strings.LastIndex(path, "/")+1:]
+				if im.Name != nil {
+					n = im.Name.Name
+				}
+				if n != "_" && n != "." {
+					out[n] = path
+				}
+			}
+		}
+		return out
+	}
+	for _, pair := range [][2]string{{"parser_plain", "parser_zip"}, {"parser_debug", "parser_debugzip"}} {
+		a, b := names(pair[0]), names(pair[1])
+		if a == nil || b == nil {
+			c.Undecided(rule, pair[1], "model package missing")
+			continue
+		}
+		var extra []string
+		for n, path := range b {
+			if _, ok := a[n]; !ok {
+				extra = append(extra, n+" ("+path+")")
+			}
+		}
+		sort.Strings(extra)
+		c.Ob(rule, pair[1]+": imported package names beyond those of "+pair[0], len(extra) == 0, fmt.Sprintf("extra names %v; a file header that declares a package-level identifier with one of these names compiles without -zip and does not compile with it", extra))
+	}
 }
